@@ -897,7 +897,7 @@ func init() {
 		f.O.BigPayload = 200
 		f.O.Budget += 6
 	}, "short_write_timeout", "write_break")})
-	register("C11", Family{Name: "requests", Weight: 80, Run: flowFamily(func(f *Flow) {
+	register("C11", Family{Name: "requests", Weight: 400, Run: flowFamily(func(f *Flow) {
 		f.O.Publishers = f.W.Tape.Draw("npub11", 2)
 		f.O.Requesters = 2 + f.W.Tape.Draw("nreq11", 6)
 		f.O.PerReq = 1 + f.W.Tape.Draw("perreq11", 5)
@@ -914,7 +914,7 @@ func init() {
 	// the single ping slot: several pingers with quits behind a busy write
 	// lock, so that pongs of abandoned pings meet callbacks of pings that
 	// still wait for their submission
-	register("C11", Family{Name: "ping-slot", Weight: 20, Run: flowFamily(func(f *Flow) {
+	register("C11", Family{Name: "ping-slot", Weight: 100, Run: flowFamily(func(f *Flow) {
 		o := &f.O
 		o.Publishers = 0
 		o.BigPayload = 500
@@ -924,6 +924,38 @@ func init() {
 		o.ReqMix = [rkKinds]int{2, 0, 0, 0, 0, 0, 8}
 		o.QuitMix = [4]int{1, 0, 2, 6}
 	}, "answered_ping", "quit_closed_during_request")})
+	// requests issued while the read routine tears a connection down that is
+	// still writable (deadline expiry, partition): nobody may be left waiting
+	// on the dead connection
+	register("C11", Family{Name: "teardown", Weight: 100, Run: flowFamily(func(f *Flow) {
+		o := &f.O
+		// storage errors in the acknowledgement handlers take a healthy
+		// connection down, too
+		o.Publishers = 1 + f.W.Tape.Draw("npub11t", 2)
+		o.PerPub = 3 + f.W.Tape.Draw("perpub11t", 5)
+		o.Disk.ErrBefore = 300
+		o.Disk.ErrOnly = "D" // record removal happens in the acknowledgement handlers only
+		o.Inbound = 2 + f.W.Tape.Draw("nin11t", 4)
+		o.InSizeMix = [4]int{2, 2, 2, 0}
+		o.Requesters = 3 + f.W.Tape.Draw("nreq11t", 3)
+		o.PerReq = 8 + f.W.Tape.Draw("perreq11t", 10)
+		o.ReqMix = [rkKinds]int{1, 0, 3, 1, 1, 3, 3}
+		o.QuitMix = [4]int{6, 1, 0, 1}
+		if o.PauseTimeout == 0 {
+			o.PauseTimeout = 250 * time.Millisecond
+		}
+		o.Net.ReadExpiry = 0
+		o.PartW = 0
+		o.BreakW = 0
+		o.Net.DialFail, o.Net.DialHang = 0, 0
+		// few faults: a caller left behind by one teardown is released by
+		// the next one, the last teardown is the one that shows
+		o.Budget = 1 + f.W.Tape.Draw("budget11t", 3)
+		o.FaultFrom = f.W.Tape.Draw("faultfrom11t", 150)
+		o.StarveP = 80
+		o.Net.SlowClose = true
+		o.BigPayload = 400
+	}, "healthy_connection_closed_by_client", "disk_err_before_D", "goroutine_held_back")})
 	register("C11", Family{Name: "id-window", Weight: 1, Run: flowFamily(func(f *Flow) {
 		o := &f.O
 		o.Publishers, o.Requesters, o.Inbound = 0, 0, 0
